@@ -253,6 +253,8 @@ func (c *Ctx) Add(args ...*Term) *Term {
 	if len(flat) == 1 {
 		return flat[0]
 	}
+	// addition is commutative: canonical argument order
+	sort.SliceStable(flat, func(i, j int) bool { return flat[i].ID < flat[j].ID })
 	t := &Term{Op: OAdd, Sort: s, Args: flat}
 	if s == SInt {
 		lo, hi := new(big.Int), new(big.Int)
